@@ -604,6 +604,12 @@ def M6o.ret (m : M6o) : Op → Res → Option M6o
       some { m with st := fun k => (m.st k).weaken }
   | _, _ => none
 
+/-- the `liveDef` table after the invocation of `op` -/
+def ldInv (m : M6o) : Op → List (Option Nat)
+  | .release r => if r < m.liveDef.length then m.liveDef.set r none else m.liveDef
+  | .rcRemoveKey k => m.liveDef.map fun x => if x == some k then none else x
+  | _ => m.liveDef
+
 def monC06o : ObsMonitor Obs M6o where
   init := {}
   step := fun m o =>
@@ -611,10 +617,7 @@ def monC06o : ObsMonitor Obs M6o where
     | .config c => some { m with delay := c.delay }
     | .inv id op =>
       -- a reference stops being certainly unreleased when its release is invoked
-      let ld := match op with
-        | .release r => if r < m.liveDef.length then m.liveDef.set r none else m.liveDef
-        | .rcRemoveKey k => m.liveDef.map fun x => if x == some k then none else x
-        | _ => m.liveDef
+      let ld := ldInv m op
       if m.pending.isEmpty then some { m with pending := [(id, op, false)], liveDef := ld }
       else
         -- two callers: nothing is known about the keys any more
